@@ -37,6 +37,9 @@ Location = tuple[Union[str, int, "Location"], ...]
 # This is use for pretty printing paths with shorthand notation where possible.
 RE_PROPERTY = re.compile(r"[\u0080-\uFFFFa-zA-Z_][\u0080-\uFFFFa-zA-Z0-9_-]*")
 
+# A root segment that the expression tokenizer reads as a single word.
+RE_WORD = re.compile(r"\w[\w\-]*\??")
+
 
 class Path(Expression):
     __slots__ = ("path",)
@@ -50,7 +53,16 @@ class Path(Expression):
 
     def __str__(self) -> str:
         it = iter(self.path)
-        buf = [str(next(it))]
+        head = next(it)
+        if isinstance(head, Path):
+            # A bracketed root, `[x]`, names the variable to look up.
+            buf = [f"[{head}]"]
+        elif isinstance(head, str) and not RE_WORD.fullmatch(head):
+            # A quoted root, `['some thing']`.
+            quote = '"' if "'" in head else "'"
+            buf = [f"[{quote}{head}{quote}]"]
+        else:
+            buf = [str(head)]
         for segment in it:
             if isinstance(segment, Path):
                 buf.append(f"[{segment}]")
